@@ -22,7 +22,11 @@ module Nat :
   val eqb : nat -> nat -> bool
 
   val leb : nat -> nat -> bool
+
+  val ltb : nat -> nat -> bool
  end
+
+val rev : 'a1 list -> 'a1 list
 
 val map : ('a1 -> 'a2) -> 'a1 list -> 'a2 list
 
@@ -209,3 +213,75 @@ val has_flow_b : csys -> bool
 val spec_pkgs :
   (site -> bool) -> nat -> pkg list -> nat -> (nat * fact option) list ->
   ((bool * site list) * site list) list
+
+type pos = { p_file : nat; p_line : nat; p_col : nat; p_off : nat;
+             p_valid : bool }
+
+type node = { n_ppos : pos; n_cpos : pos; n_prepr : nat; n_crepr : nat }
+
+type conflict0 = { c_id : nat; c_pos : pos; c_nil : node list;
+                   c_nonnil : node list; c_func : nat option; c_test : 
+                   bool }
+
+type range = { r_file : nat; r_from : nat; r_to : nat }
+
+val pos_key : pos -> ((nat * nat) * nat) option
+
+val node_key :
+  node -> ((((nat * nat) * nat) option * nat) * nat) * ((nat * nat) * nat)
+  option
+
+type gkey =
+| KPath of (((((nat * nat) * nat) option * nat) * nat) * ((nat * nat) * nat)
+           option) list
+| KProd of ((nat * nat) * nat) * nat
+| KFunc of nat option * nat * nat
+
+val group_key : conflict0 -> gkey
+
+val opt3_eqb :
+  ((nat * nat) * nat) option -> ((nat * nat) * nat) option -> bool
+
+val nk_eqb :
+  (((((nat * nat) * nat) option * nat) * nat) * ((nat * nat) * nat) option)
+  -> (((((nat * nat) * nat) option * nat) * nat) * ((nat * nat) * nat)
+  option) -> bool
+
+val list_eqb : ('a1 -> 'a1 -> bool) -> 'a1 list -> 'a1 list -> bool
+
+val optnat_eqb : nat option -> nat option -> bool
+
+val gkey_eqb : gkey -> gkey -> bool
+
+type diag = { d_head : conflict0; d_similar : conflict0 list }
+
+val add_to_group : diag list -> conflict0 -> diag list
+
+val group_conflicts : conflict0 list -> diag list
+
+val no_grouping : conflict0 list -> diag list
+
+val conflict_leb : conflict0 -> conflict0 -> bool
+
+val insert_c : conflict0 -> conflict0 list -> conflict0 list
+
+val sort_conflicts : conflict0 list -> conflict0 list
+
+val in_range : range -> conflict0 -> bool
+
+val suppressed : range list -> bool -> conflict0 -> bool
+
+val diagnostics : bool -> range list -> bool -> conflict0 list -> diag list
+
+val last_cpos : conflict0 -> ((nat * nat) * nat) option
+
+val shown_places : diag -> ((nat * nat) * nat) option list
+
+val in_test : nat list -> pos -> bool
+
+val involves_test : nat list -> conflict0 -> bool
+
+val set_test : nat list -> conflict0 -> conflict0
+
+val diagnostics_tf :
+  bool -> range list -> bool -> nat list -> conflict0 list -> diag list
